@@ -163,3 +163,6 @@ Lemma map_fst_combine' {A B} (l : list A) (r : list B) : Datatypes.length l = Da
 Proof.
   revert r. induction l as [|a l IH]; intros [|b r] Hlen; cbn in *; try discriminate; [reflexivity|]. f_equal. apply IH. lia.
 Qed.
+
+Lemma forallb_map' {A B} (f : A -> B) (P : B -> bool) l : forallb P (map f l) = forallb (fun x => P (f x)) l.
+Proof. induction l as [|x l IH]; cbn [map forallb]; [reflexivity|]. rewrite IH. reflexivity. Qed.
